@@ -9,10 +9,11 @@ the "independent of buffer boundaries" half of the property.  Tree level: the st
 import PdfVerif.Lemmas.LexTokens
 import PdfVerif.Lemmas.StackParser
 import PdfVerif.Lemmas.Roundtrip
+import PdfVerif.Lemmas.SpecSound
 import PdfVerif.Props.C14
 
 namespace PdfVerif.Props.C01
-open PdfVerif PdfVerif.Lexer PdfVerif.Gen.LexTables PdfVerif.StackParser PdfVerif.Roundtrip
+open PdfVerif PdfVerif.Lexer PdfVerif.Gen.LexTables PdfVerif.StackParser PdfVerif.Roundtrip PdfVerif.SpecSound
 
 /-! ### integers -/
 
@@ -208,16 +209,14 @@ example :
 
 /-! ### nesting -/
 
-/-- top-level values read through `PDFStreamParser.nextobject`: everything but a bare `n g R` -/
-def notRef : SObj → Prop
-  | .ref _ => False
-  | _ => True
-
-/-- Arrays and dictionaries nested to ANY depth: feeding the token sequence of a tree to the stack
-    parser yields exactly that tree (null-valued dictionary entries absent), nothing else, no error. -/
-theorem C01_nesting (v : SObj) (hc : clean v) (hr : notRef v) :
-    feedAll {} (ser v) = { results := [norm v] } := by
-  have htop : ((({} : PState).error = none) ∧ (({} : PState).context = [])) := ⟨rfl, rfl⟩
+/-- Arrays and dictionaries nested to ANY depth, and a bare `n g R`: feeding the token sequence of a tree
+    to the stack parser (PDFStreamParser: `flush` holds back up to two trailing integers, `nextobject`
+    hands them out at PSEOF = `finish`) yields exactly that tree (null-valued dictionary entries
+    absent), nothing else, no error. -/
+theorem C01_nesting (v : PObj) (hc : clean v) :
+    finish (feedAll {} (ser v)) = { results := [norm v] } := by
+  have hD := good_stream
+  unfold feedAll
   cases v with
   | null =>
     have e1 : (StackParser.kwNull == [91]) = false := by decide
@@ -226,113 +225,246 @@ theorem C01_nesting (v : SObj) (hc : clean v) (hr : notRef v) :
     have e4 : (StackParser.kwNull == [62, 62]) = false := by decide
     have e5 : (StackParser.kwNull == [123]) = false := by decide
     have e6 : (StackParser.kwNull == [125]) = false := by decide
-    have e7 : (StackParser.kwNull == kwR) = false := by decide
-    simp [ser, feedAll_cons, feedAll_nil, feed, e1, e2, e3, e4, e5, e6, e7, doKeyword, push, norm]
-  | bool b => simp [ser, feedAll_cons, feedAll_nil, feed, push, norm]
-  | int i => simp [ser, feedAll_cons, feedAll_nil, feed, push, norm]
-  | real t => simp [ser, feedAll_cons, feedAll_nil, feed, push, norm]
-  | str s => simp [ser, feedAll_cons, feedAll_nil, feed, push, norm]
-  | lit n => simp [ser, feedAll_cons, feedAll_nil, feed, push, norm]
+    have hn : doKeyword {} StackParser.kwNull = push {} .null := hD.null {}
+    simp [ser, feedAllWith_cons, feedAllWith_nil, feedWith, e1, e2, e3, e4, e5, e6, hn, push, norm, streamDialect,
+      flushHold, heldCount, finish]
+  | bool b => simp [ser, feedAllWith_cons, feedAllWith_nil, feedWith, push, norm, streamDialect, flushHold, heldCount, finish]
+  | int i => simp [ser, feedAllWith_cons, feedAllWith_nil, feedWith, push, norm, streamDialect, flushHold, heldCount, finish]
+  | real t => simp [ser, feedAllWith_cons, feedAllWith_nil, feedWith, push, norm, streamDialect, flushHold, heldCount, finish]
+  | str s => simp [ser, feedAllWith_cons, feedAllWith_nil, feedWith, push, norm, streamDialect, flushHold, heldCount, finish]
+  | lit n => simp [ser, feedAllWith_cons, feedAllWith_nil, feedWith, push, norm, streamDialect, flushHold, heldCount, finish]
   | kwd n => simp [clean] at hc
-  | ref n => simp [notRef] at hr
+  | ref n g =>
+    have e1 : (kwR == [91]) = false := by decide
+    have e2 : (kwR == [93]) = false := by decide
+    have e3 : (kwR == [60, 60]) = false := by decide
+    have e4 : (kwR == [62, 62]) = false := by decide
+    have e5 : (kwR == [123]) = false := by decide
+    have e6 : (kwR == [125]) = false := by decide
+    have hk := hD.ref { curstack := [.int n, .int g] } [] n g rfl
+    simp only [streamDialect] at hk
+    simp [ser, feedAllWith_cons, feedAllWith_nil, feedWith, push, norm, streamDialect, flushHold, heldCount, finish,
+      e1, e2, e3, e4, e5, e6, hk]
   | arr items =>
-    have ho := feed_open {} (Or.inr htop) [91] .a (Or.inl ⟨rfl, rfl⟩)
+    have ho := feed_open (D := streamDialect) {} rfl [91] .a (Or.inl ⟨rfl, rfl⟩)
     simp only [clean] at hc
-    simp only [ser, feedAll_cons, ho.1, feedAll_append]
-    rw [feed_serList items (startType {} .a) ho.2 hc]
-    simp only [feedAll_cons, feedAll_nil]
+    simp only [ser, feedAllWith_cons, ho.1, feedAllWith_append]
+    rw [feed_serList hD items (startType {} .a) ho.2 hc]
+    simp only [feedAllWith_cons, feedAllWith_nil]
     have e : ({ startType {} .a with curstack := (startType {} .a).curstack ++ normList items } : PState)
         = { startType {} .a with curstack := normList items } := by simp [startType]
     rw [e, feed_close_arr {} (normList items) rfl, norm]
-    simp [closed]
+    simp [closed, streamDialect, flushHold, heldCount, push, finish]
   | dict es =>
-    have ho := feed_open {} (Or.inr htop) [60, 60] .d (Or.inr ⟨rfl, rfl⟩)
+    have ho := feed_open (D := streamDialect) {} rfl [60, 60] .d (Or.inr ⟨rfl, rfl⟩)
     simp only [clean] at hc
-    simp only [ser, feedAll_cons, ho.1, feedAll_append]
-    rw [feed_serEntries es (startType {} .d) ho.2 hc.1]
-    simp only [feedAll_cons, feedAll_nil]
+    simp only [ser, feedAllWith_cons, ho.1, feedAllWith_append]
+    rw [feed_serEntries hD es (startType {} .d) ho.2 hc.1]
+    simp only [feedAllWith_cons, feedAllWith_nil]
     have e : ({ startType {} .d with curstack := (startType {} .d).curstack ++ pairsOf es } : PState)
         = { startType {} .d with curstack := pairsOf es } := by simp [startType]
     rw [e, feed_close_dict {} es rfl hc.2.1 hc.2.2, norm]
-    simp [closed]
+    simp [closed, streamDialect, flushHold, heldCount, push, finish]
 
-/-- Non-vacuity: `<< /K [ 1 0 R null (s) ] /N null >>` — two levels, a reference, a dropped entry —
+/-- The `getobj` reader (PDFParser behind PDFDocument.getobj): on the tokens `objid gen obj <tree> endobj …`
+    it returns exactly the tree's value — for EVERY clean tree, a bare `n g R` included. -/
+theorem C01_getobj_nesting (objid gen : Int) (v : PObj) (hc : clean v) (more : List Token) :
+    getobjToks objid (Token.int objid :: Token.int gen :: Token.kwd kwObj :: (ser v ++ Token.kwd kwEndobj :: more))
+      = .ok (norm v) := by
+  have hq : Quiet objDialect {} := ⟨rfl, by simp [objDialect]⟩
+  have hf := feed_ser good_obj v {} hq hc
+  have hpre := nextobjectP_prefix (ser v) (Token.kwd kwEndobj :: more) {} (by rw [hf]; simp [push]) (by rw [hf]; simp [push])
+  have e1 : (kwEndobj == [91]) = false := by decide
+  have e2 : (kwEndobj == [93]) = false := by decide
+  have e3 : (kwEndobj == [60, 60]) = false := by decide
+  have e4 : (kwEndobj == [62, 62]) = false := by decide
+  have e5 : (kwEndobj == [123]) = false := by decide
+  have e6 : (kwEndobj == [125]) = false := by decide
+  have e7 : (kwEndobj == kwXref) = false := by decide
+  have e8 : (kwEndobj == kwStartxref) = false := by decide
+  have hend : feedWith objDialect (push {} (norm v)) (Token.kwd kwEndobj) = { results := [norm v] } := by
+    simp [feedWith, push, e1, e2, e3, e4, e5, e6, objDialect, doKeywordP, e7, e8, popToResults]
+  simp only [getobjToks, bne_self_eq_false, Bool.false_eq_true, if_false]
+  rw [hpre, hf]
+  simp only [nextobjectP, push, Option.isSome_none, List.isEmpty_nil, Bool.not_true, Bool.or_self, Bool.false_eq_true,
+    if_false]
+  have hend' : feedWith objDialect { curstack := [] ++ [norm v] } (Token.kwd kwEndobj) = { results := [norm v] } := by
+    simpa [push] using hend
+  rw [hend', nextobjectP_done _ _ (by simp)]
+
+/-- Non-vacuity: `<< /K [ 1 7 R null (s) ] /N null >>` — two levels, a reference, a dropped entry —
     meets the hypotheses. -/
-example : clean (.dict [([75], .arr [.ref 1, .null, .str [115]]), ([78], .null)]) ∧
-    notRef (.dict [([75], .arr [.ref 1, .null, .str [115]]), ([78], .null)]) := by
-  refine ⟨?_, trivial⟩
+example : clean (.dict [([75], .arr [.ref 1 7, .null, .str [115]]), ([78], .null)]) := by
   simp only [clean, cleanEntries, cleanList, keysOf, and_self, true_and]
   exact ⟨by decide, by intro k hk; simp at hk; rcases hk with rfl | rfl <;> decide⟩
 
 /-! ### end to end -/
 
-/-- Tokens of a well-formed spelled tree = token sequence of its value (buffer-free automaton). -/
-theorem C01_tokens (t : STree) (hwf : wf t) : tokVals (specLex (bytesOf t)) = ser (valueOf t) := by
+/-- the flushed newline yields nothing from a hand-over state -/
+theorem ho_newline (st : St) (p : Nat) (h : HO st) : (foldBytes st [10] p).2 = [] := by
   have hsp : isNONSPC 10 = false := by decide +kernel
-  obtain ⟨st', hm, h⟩ := lex_tree t hwf St.init [10] 0 rfl
-  unfold specLex
-  rw [h]
-  simp [foldBytes, stepByte, stepN, searchClass, hsp, hm, tokVals]
+  rcases h with hm | hw
+  · simp [foldBytes, stepByte, stepN, searchClass, hsp, hm]
+  · rw [fold_from_wclose st 10 [] p hw (by decide)]
+    simp [foldBytes, stepByte, stepN, searchClass, hsp]
 
-/-- END-TO-END round trip, for trees of ANY depth and every token-level spelling freedom
-    (integer signs / leading zeros, every real form, `#xx` names, all string escapes / octal /
-    continuations / nested parentheses, hex case and inner white space incl. NUL, any run of white
-    space between tokens): reading the bytes of a spelled tree with the tokenizer and the stack
-    parser yields exactly its value, once, with no error.
-    `_partial`: every token that is not self-delimiting is followed by at least one white-space
-    byte (no "minimal delimiters"), no comments between tokens, even hex digit count (open finding),
-    generation number 0, a bare `n g R` is not a top-level value of PDFStreamParser. -/
-theorem C01_roundtrip_partial (t : STree) (hwf : wf t) (hnr : notRef (valueOf t)) :
+/-- Tokens of a well-formed spelled tree (behind any separator) = token sequence of its value. -/
+theorem C01_tokens (pad : List SepItem) (hpad : sepOK pad) (t : STree) (hwf : wf t) :
+    tokVals (specLex (renderSep pad ++ bytesOf t)) = ser (valueOf t) := by
+  have hu := LexUnit.append_free (LexUnit.sep pad hpad) (lex_tree t hwf)
+  obtain ⟨st', hm, h⟩ := hu St.init 10 [] 0 (Or.inl rfl) (fun _ => by decide)
+  unfold specLex
+  rw [h, ho_newline st' _ hm]
+  simp [tokVals]
+
+/-- END-TO-END round trip for spelled trees of ANY depth: every token-level spelling freedom (integer
+    signs / leading zeros, every real form, `#xx` names, all string escapes / octal / continuations /
+    nested parentheses, hex case and inner white space incl. NUL), any separator between tokens —
+    white space of every kind, comments, or NOTHING where a delimiter follows (minimal delimiters,
+    e.g. `[/A/B(s)<41>]`, `<</K<41>>>`) — any generation number: reading the bytes with the tokenizer
+    and the stack parser yields exactly the value, once, with no error.
+    A bare `n g R` is read too (PDFStreamParser holds back trailing integers).
+    `_partial` only because of the even hex digit count (open finding `odd-hex-digit`). -/
+theorem C01_roundtrip_partial (t : STree) (hwf : wf t) :
     objects (specLex (bytesOf t)) = { results := [norm (valueOf t)] } := by
-  have h := C01_tokens t hwf
+  have h := C01_tokens [] (by intro i hi; cases hi) t hwf
+  simp only [renderSep, List.nil_append] at h
   unfold objects
   simp only [tokVals] at h
   rw [h]
-  exact C01_nesting (valueOf t) (clean_tree t hwf) hnr
+  exact C01_nesting (valueOf t) (clean_tree t hwf)
 
 /-- …at every read-buffer size: the result does not depend on where the buffer boundaries fall. -/
-theorem C01_roundtrip_buffered_partial (b : Nat) (hb : 1 ≤ b) (t : STree) (hwf : wf t) (hnr : notRef (valueOf t)) :
+theorem C01_roundtrip_buffered_partial (b : Nat) (hb : 1 ≤ b) (t : STree) (hwf : wf t) :
     (run b (bytesOf t)).map objects = some { results := [norm (valueOf t)] } := by
-  rw [C14.C14_run_eq_spec b hb, Option.map_some, C01_roundtrip_partial t hwf hnr]
+  rw [C14.C14_run_eq_spec b hb, Option.map_some, C01_roundtrip_partial t hwf]
 
-/-- Independence of the object's offset: any white-space padding in front (so any absolute position,
-    any alignment with the read buffers) leaves the value read unchanged. -/
-theorem C01_offset_partial (b : Nat) (hb : 1 ≤ b) (pad : Bytes) (hpad : gapAny pad) (t : STree) (hwf : wf t)
-    (hnr : notRef (valueOf t)) :
-    (run b (pad ++ bytesOf t)).map objects = some { results := [norm (valueOf t)] } := by
-  have hsp : isNONSPC 10 = false := by decide +kernel
-  have hu := LexUnit.append (LexUnit.gap pad hpad) (lex_tree t hwf)
-  obtain ⟨st', hm, h⟩ := hu St.init [10] 0 rfl
-  have htok : tokVals (specLex (pad ++ bytesOf t)) = ser (valueOf t) := by
-    unfold specLex
-    rw [h]
-    simp [foldBytes, stepByte, stepN, searchClass, hsp, hm, tokVals]
+/-- Independence of the object's offset: any white space and comments in front (so any absolute
+    position, any alignment with the read buffers) leave the value read unchanged. -/
+theorem C01_offset_partial (b : Nat) (hb : 1 ≤ b) (pad : List SepItem) (hpad : sepOK pad) (t : STree) (hwf : wf t) :
+    (run b (renderSep pad ++ bytesOf t)).map objects = some { results := [norm (valueOf t)] } := by
+  have htok := C01_tokens pad hpad t hwf
   rw [C14.C14_run_eq_spec b hb, Option.map_some]
   unfold objects
   simp only [tokVals] at htok
   rw [htok]
-  exact congrArg some (C01_nesting (valueOf t) (clean_tree t hwf) hnr)
+  exact congrArg some (C01_nesting (valueOf t) (clean_tree t hwf))
 
-/-- Non-vacuity: `[ -07 /A#20 (a\)b) <4 1> <</K .5 /N null >> 3 00 R ]` with NUL/CR/LF gaps is well formed. -/
-example : wf (.arr [32] [.int [45] [48, 55] [32], .name [.raw 65, .esc 50 48] [0, 13], .str [.raw 97, .esc 41, .raw 98] [],
-      .hex [52, 32, 49] [10],
-      .dict [] [([.raw 75], [32], .real [] [] [53] [32]), ([.raw 78], [9], .null [32])] [32],
-      .ref [51] [32] [48, 48] [32] [32]] []) := by
-  simp only [wf, wfList, wfEntries, gapAny, gapNE, signOK, digitsOK, valueEntries, keysOf, nameValue]
-  refine ⟨by decide, ⟨?_, ?_, ?_, ?_, ?_, ?_, trivial⟩, by simp⟩
-  · refine ⟨by decide, ⟨by decide, by decide, by decide⟩, by decide, by decide⟩
-  · refine ⟨?_, by decide, by decide⟩
-    intro i hi; simp at hi; rcases hi with rfl | rfl <;> simp [NameItem.ok] <;> decide +kernel
-  · refine ⟨?_, by simp [chainOK, StrItem.nextOK], by decide, by simp⟩
+/-- END-TO-END for the `getobj` reader: an indirect object `n g obj <spelled tree> endobj` (any separators,
+    minimal delimiters and comments included, any white space / comments in front, any buffer size)
+    read by the tokenizer and `PDFDocument._getobj_parse` / `PDFParser.nextobject` yields exactly the
+    tree's value — a bare `n g R` included.  (`_partial`: even hex digit count only; the offset comes from
+    the cross-reference table, which is C02's business; a stream object is outside C01.) -/
+theorem C01_getobj_roundtrip_partial (b : Nat) (hb : 1 ≤ b) (pad : List SepItem) (hpad : sepOK pad)
+    (o : ObjSpelling) (ho : o.wf) :
+    (run b (renderSep pad ++ o.bytes)).map (fun ts => getobjToks (intValue [] o.ds) (tokVals ts))
+      = some (.ok (norm (valueOf o.body))) := by
+  have hu := LexUnit.append_free (LexUnit.sep pad hpad) (lex_obj o ho)
+  obtain ⟨st', hm, h⟩ := hu St.init 10 [] 0 (Or.inl rfl) (fun _ => by decide)
+  have htok : tokVals (specLex (renderSep pad ++ o.bytes)) =
+      Token.int (intValue [] o.ds) :: Token.int (intValue [] o.gs) :: Token.kwd kwObj ::
+        (ser (valueOf o.body) ++ Token.kwd kwEndobj :: []) := by
+    unfold specLex
+    rw [h, ho_newline st' _ hm]
+    simp [tokVals]
+  rw [C14.C14_run_eq_spec b hb, Option.map_some, htok,
+    C01_getobj_nesting _ _ _ (clean_tree o.body ho.2.2.2.2.2.2.2.2.1) []]
+
+/-- Non-vacuity: `12 0 obj<</K 7 3 R>>endobj` (no white space around the dictionary) is a well-formed object
+    spelling whose body is a dictionary holding a reference with generation 3; a bare reference body works too. -/
+example : (ObjSpelling.mk [49, 50] [.ws 32] [48] [.ws 32] []
+      (.dict [] [([.raw 75], [.ws 32], .ref [55] [.ws 32] [51] [.ws 32] [])] []) []).wf ∧
+    (ObjSpelling.mk [49, 50] [.ws 32] [48] [.ws 10] [.ws 32] (.ref [55] [.ws 32] [51] [.ws 32] [.ws 10]) []).wf := by
+  have hnil : sepOK [] := by intro i hi; cases hi
+  have hws : sepOK [.ws 32] := by intro i hi; simp at hi; subst hi; simp [SepItem.ok, isGapByte]
+  have hnl : sepOK [.ws 10] := by intro i hi; simp at hi; subst hi; simp [SepItem.ok, isGapByte]
+  have hk : nameOK [NameItem.raw 75] := by
+    intro i hi; simp at hi; subst hi; exact ⟨by simp [NameItem.ok]; decide +kernel, trivial⟩
+  have hr : wf (.ref [55] [.ws 32] [51] [.ws 32] []) := by
+    simp only [wf, wfE, digitsOK]
+    exact ⟨⟨by decide, by decide, by decide⟩, hws, by simp, ⟨by decide, by decide, by decide⟩, hws, by simp, hnil⟩
+  have hr2 : wf (.ref [55] [.ws 32] [51] [.ws 32] [.ws 10]) := by
+    simp only [wf, wfE, digitsOK]
+    exact ⟨⟨by decide, by decide, by decide⟩, hws, by simp, ⟨by decide, by decide, by decide⟩, hws, by simp, hnl⟩
+  have hd : wf (.dict [] [([.raw 75], [.ws 32], .ref [55] [.ws 32] [51] [.ws 32] [])] []) := by
+    simp only [wf, wfE, wfEntriesE, valueEntries, keysOf]
+    refine ⟨hnil, ⟨hk, hws, by simp, hr, trivial⟩, hnil, by simp, ?_⟩
+    intro k hk'; simp [nameValue, NameItem.value] at hk'; subst hk'; decide +kernel
+  constructor
+  · refine ⟨⟨by decide, by decide, by decide⟩, hws, by simp, ⟨by decide, by decide, by decide⟩, hws, by simp, hnil, ?_,
+      hd, rfl, hnil⟩
+    intro _ rest; simp [bytesOf, isDW]
+  · exact ⟨⟨by decide, by decide, by decide⟩, hws, by simp, ⟨by decide, by decide, by decide⟩, hnl, by simp, hws,
+      by simp, hr2, rfl, hnil⟩
+
+/-- The executable ISO 32000-1 reader used as run-time oracle (`Spec/Syntax.spellcheck`) accepts EVERY
+    conformant spelled tree — odd hex digit counts included (`wfE false`) — behind any separator, and
+    returns the value the theorems are about (`specValue`: `intValue`, `realRat`, `nameValue`, `strValue`,
+    `pairUp`, …).  So the family of the round-trip theorems lies inside the oracle's domain and both
+    assign the same values; the tables of the tokenizer (`ESC_STRING`, white space, octal / hex digits) are
+    proved equal to the ISO ones on the way (`str_spec`, `hex_spec`, `eol_facts`, …). -/
+theorem C01_spec_complete (e : Bool) (pad : List SepItem) (hpad : sepOK pad) (t : STree) (h : wfE e t) :
+    Syntax.spellcheck (renderSep pad ++ bytesOf t) = some (specValue t) :=
+  spellcheck_complete pad hpad t h
+
+/-- …in particular `<2>` is accepted by the oracle with the ISO value 0x20 (where the code reads 0x02). -/
+example : Syntax.spellcheck [60, 50, 62] = some (.str (pairUp (hexDigitsOf [50]))) ∧ pairUp (hexDigitsOf [50]) = [32] := by
+  have hw : wfE false (.hex [50] []) := by
+    simp only [wfE]
+    refine ⟨?_, by simp, by intro i hi; cases hi⟩
+    intro c hc; simp at hc; subst hc; left; decide +kernel
+  have := C01_spec_complete false [] (by intro i hi; cases hi) (.hex [50] []) hw
+  exact ⟨by simpa [renderSep, bytesOf, specValue] using this, by decide +kernel⟩
+
+/-- Non-vacuity, with minimal delimiters, a comment and a generation number:
+    `[-07/A#20(a\)b)<4 1><</K/V>>3 7 R]%c<LF>`. -/
+example : wf (.arr [] [.int [45] [48, 55] [], .name [.raw 65, .esc 50 48] [], .str [.raw 97, .esc 41, .raw 98] [],
+      .hex [52, 32, 49] [], .dict [] [([.raw 75], [], .name [.raw 86] [])] [],
+      .ref [51] [.ws 32] [55] [.ws 32] []] [.comment [99] 10]) := by
+  have hnil : sepOK [] := by intro i hi; cases hi
+  have hws : sepOK [.ws 32] := by intro i hi; simp at hi; subst hi; simp [SepItem.ok, isGapByte]
+  have h1 : wf (.int [45] [48, 55] []) := by
+    simp only [wf, wfE, signOK, digitsOK]
+    exact ⟨by simp, ⟨by decide, by decide, by decide⟩, hnil⟩
+  have h2 : wf (.name [.raw 65, .esc 50 48] []) := by
+    simp only [wf, wfE]
+    refine ⟨?_, hnil⟩
+    intro i hi; simp at hi
+    rcases hi with rfl | rfl
+    · exact ⟨by simp [NameItem.ok]; decide +kernel, trivial⟩
+    · exact ⟨⟨by decide +kernel, by decide +kernel⟩, by simp [NameItem.nonzero]; decide +kernel⟩
+  have h3 : wf (.str [.raw 97, .esc 41, .raw 98] []) := by
+    simp only [wf, wfE]
+    refine ⟨?_, by simp [chainOK, StrItem.nextOK], by decide, hnil⟩
     intro i hi; simp at hi; rcases hi with rfl | rfl | rfl <;> simp [StrItem.ok] <;> decide +kernel
-  · refine ⟨?_, ⟨1, by decide +kernel⟩, by decide, by decide⟩
-    intro c hc; simp at hc; rcases hc with rfl | rfl | rfl <;> decide +kernel
-  · refine ⟨by simp, ⟨?_, ⟨by decide, by decide⟩, ⟨by decide, by decide, by decide, by decide, by decide, by decide⟩,
-        ?_, ⟨by decide, by decide⟩, ⟨by decide, by decide⟩, trivial⟩, by decide, by decide +kernel, ?_⟩
-    · intro i hi; simp at hi; subst hi; simp [NameItem.ok]; decide +kernel
-    · intro i hi; simp at hi; subst hi; simp [NameItem.ok]; decide +kernel
-    · intro k hk; simp [NameItem.value] at hk; rcases hk with rfl | rfl <;> decide +kernel
-  · exact ⟨⟨by decide, by decide, by decide⟩, ⟨by decide, by decide⟩, ⟨by decide, by decide, by decide⟩,
-      by decide +kernel, ⟨by decide, by decide⟩, ⟨by decide, by decide⟩⟩
+  have h4 : wf (.hex [52, 32, 49] []) := by
+    simp only [wf, wfE]
+    refine ⟨?_, fun _ => ⟨1, by decide +kernel⟩, hnil⟩
+    intro c hc; simp at hc; rcases hc with rfl | rfl | rfl
+    · left; decide +kernel
+    · right; decide
+    · left; decide +kernel
+  have hk : nameOK [NameItem.raw 75] := by
+    intro i hi; simp at hi; subst hi; exact ⟨by simp [NameItem.ok]; decide +kernel, trivial⟩
+  have hv : wf (.name [.raw 86] []) := by
+    simp only [wf, wfE]
+    refine ⟨?_, hnil⟩
+    intro i hi; simp at hi; subst hi; exact ⟨by simp [NameItem.ok]; decide +kernel, trivial⟩
+  have h5 : wf (.dict [] [([.raw 75], [], .name [.raw 86] [])] []) := by
+    simp only [wf, wfE, wfEntriesE, valueEntries, keysOf]
+    refine ⟨hnil, ⟨hk, hnil, ?_, hv, trivial⟩, hnil, by simp, ?_⟩
+    · intro _ rest; simp [bytesOf, isDW]
+    · intro k hk'; simp [nameValue, NameItem.value] at hk'; subst hk'; decide +kernel
+  have h6 : wf (.ref [51] [.ws 32] [55] [.ws 32] []) := by
+    simp only [wf, wfE, digitsOK]
+    exact ⟨⟨by decide, by decide, by decide⟩, hws, by simp, ⟨by decide, by decide, by decide⟩, hws, by simp, hnil⟩
+  have hc : sepOK [.comment [99] 10] := by
+    intro i hi; simp at hi; subst hi
+    exact ⟨by intro x hx; simp at hx; subst hx; decide +kernel, Or.inl rfl⟩
+  simp only [wf, wfE, wfListE, wfEntriesE]
+  simp only [wf, wfE, wfListE, wfEntriesE] at h1 h2 h3 h4 h5 h6
+  refine ⟨hnil, ⟨h1, ⟨h2, ⟨h3, ⟨h4, ⟨h5, ⟨h6, trivial, ?_⟩, ?_⟩, ?_⟩, ?_⟩, ?_⟩, ?_⟩, hc⟩
+  all_goals intro _ _ rest
+  all_goals simp [bytesList, bytesOf, isDW, isGapByte, endsReg] at *
 
 end PdfVerif.Props.C01
